@@ -184,7 +184,8 @@ Definition set_var (n : str) (l : loc) (e : env) : M env :=
          | [] => (Ok [], upd_globals (frame_set n l (st_globals s)) s)
          end.
 
-(* scope.update: rebinding in the frame that has the name; Go panics when no scope has it *)
+(* scope.update: rebinding in the frame that has the name; when no scope has it (a function assigning a
+   global before its declaration ran) evalAssignment reports ErrVarNotSet *)
 Fixpoint env_update (n : str) (l : loc) (e : env) : option env :=
   match e with
   | [] => None
@@ -201,7 +202,7 @@ Definition update_var (n : str) (l : loc) (e : env) : M env :=
          | Some e' => (Ok e', s)
          | None => match frame_get n (st_globals s) with
                    | Some _ => (Ok e, upd_globals (frame_replace n l (st_globals s)) s)
-                   | None => (Er (EHostCrash (s_ "update of unknown variable")), s)
+                   | None => (Er (EPanic PkVarNotSet), s)   (* scope.update reports false: "variable has not been set yet" *)
                    end
          end.
 
